@@ -20,8 +20,8 @@ import traceback
 from . import kioenv
 
 VERIF = kioenv.VERIF
-EVIDENCE_DIR = os.path.join(VERIF, "evidence")
-OUT_DIR = os.path.join(VERIF, "out")
+EVIDENCE_DIR = os.environ.get("KIO_VERIF_EVIDENCE_DIR", os.path.join(VERIF, "evidence"))
+OUT_DIR = os.environ.get("KIO_VERIF_OUT_DIR", os.path.join(VERIF, "out"))
 KNOWN_FILE = os.path.join(VERIF, "known_findings.txt")
 
 
